@@ -33,6 +33,7 @@ ASSUMPTIONS = ["table dispositions were assigned by reading the constructs of th
                "errors made inside closures (Result combinators) are attributed to the call that receives the closure"]
 
 RESYNC_FINDING_KEY = "C17:resync:lexical-error-skips-rest-of-clause"
+BOM_FINDING_KEY = "C18:bom:skipped-only-at-stream-start"
 # reader methods that move past reported bytes (read_char does NOT: it reports an error without consuming)
 SKIP_RX = re.compile(r"CharRead>?::(skip_bad_bytes|consume)$")
 
@@ -210,6 +211,22 @@ def consuming_reads(F, R, pid):
          any(any(SKIP_RX.search(r or "") for _, r, _ in hir_calls(a["body"])) for a in some_err),
          "open_parsing_stream (the entry of get_char/2, get_code/2, get_n_chars/3) must skip the invalid bytes it reports (skip_bad_bytes/consume): otherwise "
          "the same error is raised for the same bytes on every call and the characters after them are never delivered", F.where(ops[0]))
+    if pid == "C18":
+        # a byte-order mark is skipped at the start of the stream only: open_parsing_stream runs on EVERY get_char/get_code,
+        # so an unconditional skip drops U+FEFF anywhere in the text (and get_char then disagrees with peek_char)
+        some_ok = [a for a in arms if any(_pat_shape(q)[:2] == ("Some", "Ok") for q in pat_leaves(a["pat"]))]
+        guarded = None
+        for a in some_ok:
+            for ifn in walk(a["body"]):
+                if ifn["k"] == "If" and any(x["k"] == "MethodCall" and x["name"] == "consume" for x in walk(ifn["then"])):
+                    mentions_bom = any(x["k"] == "Lit" and "feff" in str(x.get("lit")).lower() or x["k"] == "Lit" and x.get("lit", {}).get("char") == "﻿" for x in walk(ifn["cond"]))
+                    if mentions_bom:
+                        guarded = any(x["k"] in ("MethodCall", "Call") and re.search(r"position|stream_position|lines_read|bytes_read|is_first|at_start", (x.get("name") or "") + (x.get("resolved") or x.get("callee") or ""))
+                                      for x in walk(ifn["cond"])) or any(x["k"] == "Field" and re.search(r"pos|start|first|bom", x["name"]) for x in walk(ifn["cond"]))
+        if guarded is not None:
+            R.ob(BOM_FINDING_KEY, guarded,
+                 "open_parsing_stream skips a leading U+FEFF whenever it is the next character, and it runs on every get_char/get_code/get_n_chars: a U+FEFF in the middle of "
+                 "the text is dropped (file `a<U+FEFF>b`: peek_char gives U+FEFF, get_char gives b). The skip must depend on the stream being at its start", F.where(ops[0]))
     # only consuming builtins may call it (a peek must not skip input)
     callers = sorted({short(p) for p, cs in F.calls.items() for c in cs if (c.get("resolved") or c.get("callee")) == ops[0]})
     bad = [c for c in callers if re.search(r"peek", c)]
